@@ -256,6 +256,27 @@ def duels():
         if arr == 'yx': two.reverse()
         out.append(case('duel:llgr_source_flag:%s' % arr, two + [('restale', True, 2), ('restale', False, 1)]))
         out.append(case('duel:llgr_source_flag_first:%s' % arr, [two[0], ('restale', True, 2), ('restale', True, 1), two[1]]))
+    # re-announcement after a restart: X beats Y only at a step BEHIND the stale step, is demoted by the stale
+    # (or LLGR-stale) mark, comes back on a NEW session and re-announces the very same attribute block (and,
+    # as variants, a block of equal rank / its stale copy is withdrawn first): the fresh path must be ranked by
+    # the current state, i.e. ahead of Y again -- rank depends on the Source, not only on the attributes
+    same = dict(llgr=False, lp=100, segs=[(2, 2)], origin=0, clen=None, oid=None)
+    for kind, llgr_mark in (('gr', False), ('llgr', True)):
+        wins = [('clen', dict(same), dict(same, clen=1), 0, 0), ('rid', dict(same), dict(same), 0, 0)]
+        if llgr_mark:
+            wins += [('lp', dict(same, lp=200), dict(same), 0, 0), ('hops', dict(same, segs=[(2, 1)]), dict(same), 0, 0),
+                     ('origin', dict(same), dict(same, origin=1), 0, 0), ('role', dict(same), dict(same), 0, 2)]
+        for wn, vx, vy, rx, ry in wins:
+            sx = (1, 1, 5, rx); sxb = (11, 1, 5, rx); sy = (2, 2, 9, ry)
+            ax = mk(190, vx); ax2 = mk(192, vx); ay = mk(191, vy)
+            for arr in ('xy', 'yx'):
+                two = [ins(sx, 1, ax), ins(sy, 1, ay, nh=2)]
+                if arr == 'yx': two.reverse()
+                mark = [('restale', llgr_mark, 1)]
+                out.append(case('duel:rejoin_same_block:%s:%s:%s' % (kind, wn, arr), two + mark + [ins(sxb, 1, ax)]))
+                out.append(case('duel:rejoin_equal_block:%s:%s:%s' % (kind, wn, arr), two + mark + [ins(sxb, 1, ax2)]))
+                out.append(case('duel:rejoin_same_session:%s:%s:%s' % (kind, wn, arr), two + mark + [ins(sx, 1, ax)]))
+                out.append(case('duel:rejoin_twice:%s:%s:%s' % (kind, wn, arr), two + mark + [ins(sxb, 1, ax), ins(sxb, 1, ax), ins(sy, 1, ay, nh=2)]))
     return out
 
 # ------------------------------------------------------------------------ hops
